@@ -439,10 +439,12 @@ func getTypeConverter(typ reflect.Type) (TypeConverter, error) {
 		}
 	case reflect.Map:
 		if typ.Key().Kind() == reflect.String {
-			converter, err = newMapConverter(typ.Elem())
+			mapConverter, err := newMapConverter(typ.Elem())
 			if err != nil {
 				return nil, err
 			}
+			mapConverter.keyType = typ.Key()
+			converter = mapConverter
 		} else {
 			return nil, errz.TypeErrorf("type error: unsupported map key type in %s", typ)
 		}
@@ -930,6 +932,7 @@ func valueOrZero(v interface{}, typ reflect.Type) reflect.Value {
 type MapConverter struct {
 	valueConverter TypeConverter
 	valueType      reflect.Type
+	keyType        reflect.Type // a type of kind string; nil means string
 }
 
 func (c *MapConverter) To(obj Object) (interface{}, error) {
@@ -940,7 +943,10 @@ func (c *MapConverter) To(obj Object) (interface{}, error) {
 	if !ok {
 		return nil, errz.TypeErrorf("type error: expected map (%s given)", obj.Type())
 	}
-	keyType := reflect.TypeOf("")
+	keyType := c.keyType
+	if keyType == nil {
+		keyType = reflect.TypeOf("")
+	}
 	mapType := reflect.MapOf(keyType, c.valueType)
 	gMap := reflect.MakeMapWithSize(mapType, tMap.Size())
 	for k, v := range tMap.items {
@@ -948,7 +954,7 @@ func (c *MapConverter) To(obj Object) (interface{}, error) {
 		if err != nil {
 			return nil, err
 		}
-		gMap.SetMapIndex(reflect.ValueOf(k), valueOrZero(conv, c.valueType))
+		gMap.SetMapIndex(reflect.ValueOf(k).Convert(keyType), valueOrZero(conv, c.valueType))
 	}
 	return gMap.Interface(), nil
 }
@@ -962,7 +968,7 @@ func (c *MapConverter) From(obj interface{}) (Object, error) {
 		if err != nil {
 			return nil, err
 		}
-		o[key.Interface().(string)] = conv
+		o[key.String()] = conv
 	}
 	return NewMap(o), nil
 }
